@@ -282,6 +282,53 @@ func checkDeltaConstruction(p *core.Prog, r *core.Report, rule string) {
 			}
 			okPair := len(applied) > 0 && recorded
 			why := ""
+			// both steps may be delegated to a helper of the package that is handed the delta: it applies its parameter and then
+			// appends it to the delta list on every path
+			if len(applied) == 0 && !recorded {
+				delegated := false
+				core.Instrs(fn, func(in ssa.Instruction) {
+					ci, ok := in.(ssa.CallInstruction)
+					if !ok {
+						return
+					}
+					h := core.StaticFn(ci.Common())
+					if h == nil || h.Blocks == nil || h.Pkg != fn.Pkg || h.Parent() != nil {
+						return
+					}
+					for ai, a := range ci.Common().Args {
+						if !(a == ssa.Value(al) || core.SliceReaches(a, al, 1)) || ai >= len(h.Params) {
+							continue
+						}
+						prm := h.Params[ai]
+						happ := core.FindInstrsIn(h, func(x ssa.Instruction) bool {
+							c, ok := x.(ssa.CallInstruction)
+							return ok && core.CommonCallee(c.Common()) == applyDelta && len(c.Common().Args) >= 2 && c.Common().Args[1] == ssa.Value(prm)
+						})
+						var hrec ssa.Instruction
+						for _, w := range core.FieldWritesIn(h, deltasF) {
+							if w.Kind == core.WAssign && core.SliceReaches(w.Value, prm, 1) {
+								hrec = w.Instr
+							}
+						}
+						if len(happ) == 0 || hrec == nil {
+							continue
+						}
+						all := true
+						for _, a2 := range happ {
+							if _, ok := core.MustReachAfter(h, a2, func(x ssa.Instruction) bool { return x == hrec }, nil); !ok {
+								all = false
+							}
+						}
+						if all {
+							delegated = true
+						}
+					}
+				})
+				if delegated {
+					r.Check(true, rule, construct+"/recorded", "a delta is applied to kv if and only if it is appended to the block's delta list", "", pos)
+					continue
+				}
+			}
 			if len(applied) == 0 {
 				why = "the delta is never passed to ApplyDelta"
 			} else if !recorded {
